@@ -87,7 +87,11 @@ def gen_tree(rng, depth, ids, dups=True):
     kws = []
     for fid in given:
         d = dict(fields)[fid]
-        if d is not None and rng.random() < 0.3:
+        if d is not None and isinstance(d, (list, tuple)) and len(d) and UNM[0] and rng.random() < 0.5:
+            # spells out a container default with a user-controlled part inside (the argument as a whole is equal to the default of its field)
+            ids.append(len(ids))
+            kws.append((fid, ("list" if isinstance(d, list) else "tuple", [("unm", ids[-1], d[0])] + [val_tree(x, rng) for x in d[1:]])))
+        elif d is not None and rng.random() < 0.3:
             kws.append((fid, val_tree(d, rng)))        # spells out the default
         else:
             kws.append((fid, gen_tree(rng, depth + 1, ids, dups)))
